@@ -454,6 +454,12 @@ def rule_f(ctx):
           truthy.append(k)
         elif isinstance(t, ast.Name) and t.id in OPTIONAL_BOUNDS:
           truthy.append(k)
+        elif isinstance(t, ast.Name):
+          # a local that merely holds a bound: `upper = base.max_value; if upper:`
+          vs = [v for _, v in D.defs_of(f.node, t.id) if v is not None]
+          if vs and all((isinstance(v, ast.Attribute) and v.attr in OPTIONAL_BOUNDS)
+                        or (isinstance(v, ast.Name) and v.id in OPTIONAL_BOUNDS) for v in vs):
+            truthy.append(k)
         elif isinstance(t, ast.Compare) and len(t.ops) == 1 and isinstance(t.ops[0], (ast.Is, ast.IsNot)) \
             and isinstance(t.comparators[0], ast.Constant) and t.comparators[0].value is None:
           l = t.left
